@@ -320,3 +320,11 @@ func returnValues(ret *ssa.Return) []ssa.Value {
 	}
 	return out
 }
+
+func constantIntOfObj(o types.Object) (int64, bool) {
+	c, ok := o.(*types.Const)
+	if !ok {
+		return 0, false
+	}
+	return constantInt(c)
+}
